@@ -34,7 +34,7 @@ Open Scope N_scope.
 
 (* ---------------------------------------------------------------- outcomes *)
 Inductive dkind :=
-| KParserError | KConverterError | KXmlContextError                               (* xsdata.exceptions *)
+| KParserError | KConverterError | KXmlContextError | KXmlHandlerError            (* xsdata.exceptions *)
 | KTypeError | KAttributeError | KKeyError | KIndexError | KValueError | KAssertionError   (* leaked Python exceptions *)
 | KModelGap.
 
@@ -58,7 +58,7 @@ Definition of_errkind (k : errkind) : dkind :=
   | ParserError => KParserError
   | ConverterError => KConverterError
   | XmlContextError => KXmlContextError
-  | XmlHandlerError => KModelGap
+  | XmlHandlerError => KXmlHandlerError
   | PyTypeError _ => KTypeError
   | PyIndexError => KIndexError
   | PyAttributeError => KAttributeError
